@@ -167,7 +167,10 @@ def main():
     os.makedirs(a.work, exist_ok=True)
     out = []
     for ci in range(a.n):
-        spec, ids, fields, n_roots, _ = gen_spec(rnd, allow_disk=rnd.random() < 0.5)
+        cols = rnd.random() < 0.3
+        spec, ids, fields, n_roots, _ = gen_spec(rnd, allow_disk=cols or rnd.random() < 0.5, allow_columns=cols)
+        if cols and not any(d['t'] == 'columns' for d in spec):
+            spec.append({'t': 'columns', 'names': sorted(rnd.sample(fields, rnd.randint(1, len(fields)))), 'root': 0, 'shard': rnd.choice([None, 2, 3])})
         # make at least one RAM cache small, so that one thread can evict what another one stored
         for d in spec:
             if d['t'] == 'ram' and rnd.random() < 0.6:
@@ -175,6 +178,11 @@ def main():
         roots = [os.path.join(a.work, f'c{ci}r{i}') for i in range(n_roots)]
         nthreads = 3 if ci < a.threads3 else 2
         jobs = [(rnd.choice(fields), rnd.choice(ids)) for _ in range(nthreads)]
+        if cols:
+            # the threads ask for the same column on different keys: keys of one shard are loaded by whoever comes first
+            f = rnd.choice([n for d in spec if d['t'] == 'columns' for n in d['names']])
+            ks = rnd.sample(ids, min(nthreads, len(ids)))
+            jobs = [(f, ks[i % len(ks)]) for i in range(nthreads)]
         ram_layers = [i for i, d in enumerate(spec) if d['t'] == 'ram']
         if ram_layers and rnd.random() < 0.3:
             jobs[-1] = ('$clear', rnd.choice(ram_layers))
